@@ -568,8 +568,20 @@ Fixpoint pci_walk (n : Z) (devs : list pcidev) (st : hres) : hres * bool :=
   | d :: t => if is_me d then (read_dev n d, true) else pci_walk n t st
   end.
 
-(** [hfsts := make([]byte, 4)]; [err = nil] before the walk *)
+(** [hfsts := make([]byte, 4)]; [err = nil], [found = false] before the walk.  The walk is
+    stopped exactly when a device matched ([found = true]); a walk that was not stopped ends in
+    "couldn't enumerate PCI devices" (enumeration error) or "couldn't find Intel ME device"
+    (repair f889c7f, former finding C05-HFSTS-no-ME-device: the made-up all-zero status) *)
 Definition read_hfsts (n : Z) (devs : list pcidev) (enum_err : bool) : hres :=
+  if (n <? 1) || (6 <? n) then HErr
+  else
+    let '(st, found) := pci_walk n devs (HWord 0) in
+    if negb found && enum_err then HErr
+    else if negb found then HErr
+    else st.
+
+(** the reader before f889c7f: without a match the zero-initialised buffer was handed out *)
+Definition read_hfsts_legacy (n : Z) (devs : list pcidev) (enum_err : bool) : hres :=
   if (n <? 1) || (6 <? n) then HErr
   else
     let '(st, stopped) := pci_walk n devs (HWord 0) in
